@@ -379,7 +379,8 @@ fn payload_template(seed: u64, idx: u64) -> Vec<String> {
     let k = 2 + rng.below(5);
     let alts: Vec<String> = picks[..k].iter().enumerate().map(|(i, p)| format!("cq{i} {}", POOL[*p])).collect();
     vec![
-        format!("Ma DEFINITIONS AUTOMATIC TAGS ::= BEGIN IMPORTS Tb, Ub FROM Mb;\nCq1 ::= CHOICE {{ {}, cq9 NULL }}\nEND\n", alts.join(", ")),
+        // the same CHOICE also where it is not a type assignment of its own (component, element, alternative): hoisted types
+        format!("Ma DEFINITIONS AUTOMATIC TAGS ::= BEGIN IMPORTS Tb, Ub FROM Mb;\nCq1 ::= CHOICE {{ {a}, cq9 NULL }}\nWq1 ::= SEQUENCE {{ inner CHOICE {{ {a}, cq9 NULL }}, tail BOOLEAN }}\nLq1 ::= SEQUENCE OF CHOICE {{ {a}, cq9 NULL }}\nOq1 ::= CHOICE {{ nested CHOICE {{ {a}, cq9 NULL }}, other NULL }}\nEND\n", a = alts.join(", ")),
         "Mb DEFINITIONS AUTOMATIC TAGS ::= BEGIN\nTb ::= BOOLEAN\nUb ::= SEQUENCE { x INTEGER }\nAllDef ::= SEQUENCE { a INTEGER DEFAULT 1, b BOOLEAN DEFAULT TRUE }\nAllDefSet ::= SET { c INTEGER (0..7) DEFAULT 3 }\nFlagq ::= BOOLEAN\nNothingq ::= NULL\nColourq ::= ENUMERATED { red, green }\nHolderq ::= SEQUENCE { inline ENUMERATED { on, off } }\nEND\n".to_string(),
     ]
 }
